@@ -107,6 +107,8 @@ pub struct Probe {
     pub write_fault_fired: bool,
     pub read_fault_fired: bool,
     pub eintr_fired: bool,
+    pub hard_read_fired: bool,
+    pub hard_read_load_failed: bool,
     pub ran_both: bool,
     pub program_value_identical: bool,
 }
@@ -164,12 +166,16 @@ pub fn run_cycle(case: &CycleCase, b: &Built, probe: &mut Probe) -> Option<(Stri
     let r = read_under_plan(&image, case.rstack, &case.rplan, budget);
     probe.read_fault_fired = r.fired > 0 || r.eintr > 0;
     probe.eintr_fired = r.eintr > 0;
+    probe.hard_read_fired = r.hard > 0;
     let who = if case.writer == "foreign" { "L3" } else { "R1" };
     if r.budget_exceeded {
         return Some((format!("{}:load_makes_no_progress", who), format!("{} read calls for a {}-byte image", r.calls, image.len())));
     }
     let loaded = match r.program {
         Ok(p) => p,
+        // the medium failed under the loader: the load may fail, and then nothing more is claimed. (If it *succeeds* despite
+        // the error, everything below still applies: it must have produced exactly the program that was saved.)
+        Err(_) if r.hard > 0 => { probe.hard_read_load_failed = true; return None; }
         Err(e) => {
             // is it the schedule or the image? decide with a fault-free read of the same bytes
             let clean = read_under_plan(&image, ReadStack::Raw, &ReadPlan::clean(), budget);
@@ -183,7 +189,7 @@ pub fn run_cycle(case: &CycleCase, b: &Built, probe: &mut Probe) -> Option<(Stri
             return Some((oracle, first_line(&e, 200)));
         }
     };
-    if case.rstack == ReadStack::Raw && r.consumed != image.len() {
+    if case.rstack == ReadStack::Raw && r.consumed != image.len() && r.hard == 0 {
         return Some((format!("{}:trailing_bytes_left_unread", if case.writer == "foreign" { "L4" } else { "R2" }), format!("loader consumed {} of {} bytes", r.consumed, image.len())));
     }
     let loaded_model = match foreign::model_of(&loaded) {
@@ -413,6 +419,19 @@ fn exercise(which: Which, name: &str, spec: &ProgSpec, rng: &mut Rng, random_pla
             let execute = execute || nointern.is_some();
             cases.push(CycleCase { which, spec: spec.clone(), wstack, wplan, writer, rstack, rplan, execute, nointern });
         }
+        // the medium fails under the loader (EIO, sticky) at a seeded read call — the first, the last (the one that would
+        // report end-of-file to a BufReader), or one in between, possibly after a short delivery: the load may fail, but a
+        // load that succeeds must still yield exactly the saved program
+        for _ in 0..(random_plans / 3).max(2) {
+            let rstack = if rng.coin() { ReadStack::BufReader(*rng.pick(&[1usize, 16, 1024, 8192])) } else { ReadStack::Raw };
+            let chunk = if rng.coin() { Some(*rng.pick(&[1usize, 3, 64, 4096])) } else { None };
+            let clean = read_under_plan(&b.reference, rstack, &ReadPlan { chunk, at: vec![] }, 4 * b.reference.len() + 64);
+            let n = clean.calls.max(1);
+            let at = match rng.below(4) { 0 => 0, 1 => n - 1, 2 => n.saturating_sub(2), _ => rng.usize_below(n) };
+            let mut plan = ReadPlan { chunk, at: vec![(at, if rng.below(3) == 0 { RAct::HardOnce } else { RAct::Hard })] };
+            if at > 0 && rng.coin() { plan.at.insert(0, (at - 1, RAct::Short(1 + rng.usize_below(3)))); }
+            cases.push(CycleCase { which, spec: spec.clone(), wstack: Stack::Raw, wplan: WritePlan::clean(), writer, rstack, rplan: plan, execute: true, nointern: None });
+        }
     }
     let mut any_write_fault = 0u64;
     let mut any_read_fault = 0u64;
@@ -420,6 +439,7 @@ fn exercise(which: Which, name: &str, spec: &ProgSpec, rng: &mut Rng, random_pla
     let mut ran = 0u64;
     let mut identical = 0u64;
     let mut nointern_n = 0u64;
+    let (mut hard_read, mut hard_read_failed) = (0u64, 0u64);
     for case in cases {
         let mut probe = Probe::default();
         let verdict = run_cycle(&case, &b, &mut probe);
@@ -427,10 +447,12 @@ fn exercise(which: Which, name: &str, spec: &ProgSpec, rng: &mut Rng, random_pla
         if probe.write_fault_fired { any_write_fault += 1; }
         if probe.read_fault_fired { any_read_fault += 1; }
         if probe.eintr_fired { eintr += 1; }
+        if probe.hard_read_fired { hard_read += 1; }
+        if probe.hard_read_load_failed { hard_read_failed += 1; }
         if probe.ran_both { ran += 1; }
         if probe.program_value_identical { identical += 1; }
         if case.nointern.is_some() { nointern_n += 1; }
-        if probe.write_fault_fired || probe.read_fault_fired {
+        if probe.write_fault_fired || probe.read_fault_fired || probe.hard_read_fired {
             out.distinct.push(digest_of(&(digest, case.writer, case.wstack, &case.wplan, case.rstack, &case.rplan, case.nointern)));
         }
         if let Some((o, d)) = verdict {
@@ -445,6 +467,8 @@ fn exercise(which: Which, name: &str, spec: &ProgSpec, rng: &mut Rng, random_pla
     out.counters.push(("cycles_with_write_fault_fired", any_write_fault));
     out.counters.push(("cycles_with_read_cut_or_eintr_fired", any_read_fault));
     out.counters.push(("cycles_with_read_eintr_fired", eintr));
+    out.counters.push(("cycles_with_hard_read_error_fired", hard_read));
+    out.counters.push(("cycles_with_hard_read_error_where_the_load_failed_as_allowed", hard_read_failed));
     out.counters.push(("cycles_that_executed_original_and_loaded_program", ran));
     out.counters.push(("cycles_with_foreign_writer_that_does_not_intern_strings", nointern_n));
     out.counters.push(("informational.cycles_where_loaded_Program_value_equals_compiled_Program", identical));
